@@ -112,7 +112,7 @@ def run(tier):
     # PDFTextEnc by TraceEnc; strings where the code left the model are encoded through the public API and read back like all others
     wrong, drift = encconf.conformance(chk, "pdf", quick)
     for k, c in enumerate(wrong + drift):
-        jobs.append(gen.enc("pdf", list(c), (k % 3,)))
+        jobs.append(gen.enc("pdf", list(c["content"]), (k % 3,)))
     evs, extras = onedim.judge(chk, drive, jobs, "TracePDF", "TracePDF.cfg", 14 if quick else 16, wanted, heap="4g", timeout=6000, describe=describe)
     ok = [e for e in evs if e["res"]["kind"] == "ok"]
     chk.cov["symbols_decoded"] = len(ok)
